@@ -3,7 +3,6 @@
 package storeops
 
 import (
-	"context"
 	"encoding/hex"
 	"errors"
 	"fmt"
@@ -168,7 +167,7 @@ func SortedServers(xs []server.Server) string {
 //	add|<srv>|<resolver>   update|<srv>|<resolver>   remove|<srv>|<resolver>   get|<addr>
 //	filter|<ws>|<ns>|<ub>|<ua>|<ab>|<aa>   count   countby
 func RunCall(p *world.Proc, spec string) string {
-	ctx := context.Background()
+	ctx := p.Context()
 	parts := strings.Split(spec, "|")
 	switch parts[0] {
 	case "add", "update", "remove":
